@@ -37,6 +37,8 @@ type PoolScenario struct {
 	MaxW     int                 `json:"maxw"`
 	Tasks    int                 `json:"tasks"`
 	Children map[int][]int       `json:"children,omitempty"`
+	Needs    map[int][]int       `json:"needs,omitempty"` // a task ends only after these tasks were started (it blocks inside Run)
+	GateQ    bool                `json:"gateq,omitempty"` // explore runs: the pool gets a task queue whose Size() is a gate
 	Scripts  map[string][]PoolOp `json:"scripts"`
 	Target   int                 `json:"target"` // worker count after the run (-1: not determined)
 	Joined   bool                `json:"joined"`
@@ -75,6 +77,16 @@ func (sc *PoolScenario) renderMC(variant string, hist, liveness bool) (mod, cfg 
 		fmt.Fprintf(&b, "IF t = %d THEN %s ELSE ", k, tlaSeqInts(sc.Children[k]))
 	}
 	b.WriteString("<<>>]\n")
+	b.WriteString("MC_Needs == [t \\in MC_Tasks |-> ")
+	var nkeys []int
+	for k := range sc.Needs {
+		nkeys = append(nkeys, k)
+	}
+	sort.Ints(nkeys)
+	for _, k := range nkeys {
+		fmt.Fprintf(&b, "IF t = %d THEN {%s} ELSE ", k, strings.Trim(tlaSeqInts(sc.Needs[k]), "<>"))
+	}
+	b.WriteString("{}]\n")
 	cs := sc.clients()
 	var q []string
 	for _, c := range cs {
@@ -100,7 +112,7 @@ func (sc *PoolScenario) renderMC(variant string, hist, liveness bool) (mod, cfg 
 	} else {
 		c.WriteString("SPECIFICATION Spec\n")
 	}
-	fmt.Fprintf(&c, "CONSTANTS\n MaxW = %d\n Tasks <- MC_Tasks\n Children <- MC_Children\n Clients <- MC_Clients\n Script <- MC_Script\n Variant = %q\n RecordHist = %s\n",
+	fmt.Fprintf(&c, "CONSTANTS\n MaxW = %d\n Tasks <- MC_Tasks\n Children <- MC_Children\n Needs <- MC_Needs\n Clients <- MC_Clients\n Script <- MC_Script\n Variant = %q\n RecordHist = %s\n",
 		sc.MaxW, variant, strings.ToUpper(strconv.FormatBool(hist)))
 	c.WriteString("INVARIANTS TypeOK AtMostOnce NoDrop NoDupInQueue WaitAllOK JoinAllOK\n")
 	if sc.Live {
@@ -169,6 +181,11 @@ func poolScenarios(tier string) []*PoolScenario {
 			Scripts: map[string][]PoolOp{"c1": {add(1), add(2), wa}, "c2": {set(3, false), set(1, false)}}, Target: -1, Live: false},
 		{Name: "w2-waitall-vs-adder", MaxW: 2, Tasks: 2,
 			Scripts: map[string][]PoolOp{"c1": {set(2, false), add(1), wa}, "c2": {add(2)}}, Target: 2, Live: true},
+		// a burst for sleeping workers whose first task needs the second: both must get a worker
+		{Name: "w2-dependent-pair", MaxW: 2, Tasks: 2, Needs: map[int][]int{1: {2}},
+			Scripts: map[string][]PoolOp{"c1": {set(2, true), add(1), add(2)}}, Target: 2, Live: true},
+		{Name: "w2-dependent-child", MaxW: 2, Tasks: 3, Children: map[int][]int{1: {2, 3}}, Needs: map[int][]int{2: {3}},
+			Scripts: map[string][]PoolOp{"c1": {set(2, false), add(1)}}, Target: 2, Live: true},
 	}
 	if tier == "thorough" {
 		scs = append(scs,
@@ -176,6 +193,8 @@ func poolScenarios(tier string) []*PoolScenario {
 				Scripts: map[string][]PoolOp{"c1": {set(3, false), add(1), add(2), wa}}, Target: 3, Live: true},
 			&PoolScenario{Name: "w2-join-vs-tasktree", MaxW: 2, Tasks: 4, Children: map[int][]int{1: {2, 3}, 2: {4}},
 				Scripts: map[string][]PoolOp{"c1": {set(2, true), add(1), ja}}, Target: 0, Joined: true, Live: true},
+			&PoolScenario{Name: "w3-barrier", MaxW: 3, Tasks: 3, Needs: map[int][]int{1: {2, 3}, 2: {3}},
+				Scripts: map[string][]PoolOp{"c1": {set(3, true), add(1), add(2), add(3)}}, Target: 3, Live: true},
 			&PoolScenario{Name: "w3-shrink2-nowait", MaxW: 3, Tasks: 3,
 				Scripts: map[string][]PoolOp{"c1": {set(3, false), add(1), add(2), set(1, false), add(3), wa}}, Target: 1, Live: true},
 		)
@@ -207,6 +226,9 @@ func (t *hTask) Run(tid uint64) error {
 	t.run.s.Gate("task.start", t.id)
 	t.run.mu.Lock()
 	t.run.count[t.id]++
+	if t.run.count[t.id] == 1 {
+		close(t.run.startedCh(t.id))
+	}
 	t.run.mu.Unlock()
 	for _, ch := range t.run.sc.Children[t.id] {
 		t.run.s.Gate("task.child", t.id, ch)
@@ -216,18 +238,52 @@ func (t *hTask) Run(tid uint64) error {
 		t.run.s.Record("p.accept", ch)
 		t.run.tp.AddTask(&hTask{ch, t.run})
 	}
+	for _, n := range t.run.sc.Needs[t.id] {
+		// the task needs another task of the pool (like a sink that waits for the cascade of an event it added): it
+		// blocks until the pool has started that one on another worker, or the run is over
+		t.run.mu.Lock()
+		ch := t.run.startedCh(n)
+		t.run.mu.Unlock()
+		select {
+		case <-ch:
+		case <-t.run.over:
+		}
+	}
 	t.run.s.Gate("task.end", t.id)
 	return nil
 }
 func (t *hTask) HandleError(e error) {}
 
+// startedCh returns the channel that is closed when task id starts (pr.mu is held).
+func (pr *poolRun) startedCh(id int) chan struct{} {
+	if pr.startCh[id] == nil {
+		pr.startCh[id] = make(chan struct{})
+	}
+	return pr.startCh[id]
+}
+
+// gateQueue is a legal task queue of a client: the default FIFO queue whose Size() is a scheduling point. The pool
+// asks for the size inside its critical sections (load regulation, the idle task between its look at the stop
+// request and Cond.Wait), so the explore mode can hold a worker there and let the other threads move.
+type gateQueue struct {
+	pool.DefaultTaskQueue
+	run *poolRun
+}
+
+func (q *gateQueue) Size() int {
+	q.run.s.Gate("queue.size")
+	return q.DefaultTaskQueue.Size()
+}
+
 type poolRun struct {
-	sc     *PoolScenario
-	s      *sched.Scheduler
-	tp     *pool.ThreadPool
-	mu     sync.Mutex
-	count  map[int]int
-	closed int32 // set when the run is over: clients and tasks stop submitting
+	sc      *PoolScenario
+	s       *sched.Scheduler
+	tp      *pool.ThreadPool
+	mu      sync.Mutex
+	count   map[int]int
+	closed  int32 // set when the run is over: clients and tasks stop submitting
+	startCh map[int]chan struct{}
+	over    chan struct{} // closed when the run is over: tasks stop waiting for the tasks they need
 }
 
 func (pr *poolRun) isClosed() bool { return atomic.LoadInt32(&pr.closed) != 0 }
@@ -256,8 +312,13 @@ func stateCounts(tp *pool.ThreadPool) (wc, ic, q int, wids, iids []int) {
 }
 
 func newPoolRun(sc *PoolScenario, controlled bool) *poolRun {
-	pr := &poolRun{sc: sc, s: sched.New(controlled), tp: pool.NewThreadPool(), count: map[int]int{}}
-	pr.s.IsGate = func(p string, a []interface{}) bool { return poolGates[p] }
+	pr := &poolRun{sc: sc, s: sched.New(controlled), count: map[int]int{}, startCh: map[int]chan struct{}{}, over: make(chan struct{})}
+	if sc.GateQ && controlled {
+		pr.tp = pool.NewThreadPoolWithQueue(&gateQueue{run: pr})
+	} else {
+		pr.tp = pool.NewThreadPool()
+	}
+	pr.s.IsGate = func(p string, a []interface{}) bool { return poolGates[p] || (p == "queue.size" && !pr.isClosed()) }
 	pr.s.NameOf = func(p string, a []interface{}) string {
 		if p == "pool.worker.head" {
 			return fmt.Sprintf("w%v", a[0])
@@ -316,6 +377,7 @@ func (pr *poolRun) finish(out *sched.Outcome, err error) *poolRunResult {
 		"target": pr.sc.Target, "joined": pr.sc.Joined, "hung": res.Hung})
 	// cleanup: stop recording, open the gates, stop the workers
 	atomic.StoreInt32(&pr.closed, 1)
+	close(pr.over)
 	verifhook.Set(func(string, ...interface{}) {})
 	pr.s.OpenAll()
 	pr.s.WaitDone(pr.sc.clients(), 2*time.Second)
@@ -536,21 +598,31 @@ func C09(r *ev.Run) {
 				regrow = sc
 			}
 		}
+		var pair *PoolScenario
+		for _, sc := range scs {
+			if sc.Name == "w2-dependent-pair" {
+				pair = sc
+			}
+		}
 		m1, c1 := scs[1].renderMC("found-wakeup", false, false)
 		m2, c2 := regrow.renderMC("found-resize", false, true)
+		m3, c3 := pair.renderMC("signal-if-first", false, false)
 		st := []*MCJob{
 			{Name: "Pool/selftest/found-wakeup", Files: map[string]string{"MCPool.tla": m1, "MCPool.cfg": c1}, Opt: tlc.Options{Module: "MCPool", Config: "MCPool.cfg", Timeout: 5 * time.Minute}},
 			{Name: "Pool/selftest/found-resize", Files: map[string]string{"MCPool.tla": m2, "MCPool.cfg": c2}, Opt: tlc.Options{Module: "MCPool", Config: "MCPool.cfg", Timeout: 10 * time.Minute}},
+			{Name: "Pool/selftest/signal-if-first", Files: map[string]string{"MCPool.tla": m3, "MCPool.cfg": c3}, Opt: tlc.Options{Module: "MCPool", Config: "MCPool.cfg", Timeout: 5 * time.Minute}},
 		}
-		if !runMCParallel(r, st, 2) {
+		if !runMCParallel(r, st, 3) {
 			return
 		}
 		ok1 := strings.Contains(st[0].Res.Violated, "NoLostTask")
 		ok2 := strings.Contains(st[1].Res.Violated, "Temporal") || st[1].Res.ExitCode == 13
+		ok3 := strings.Contains(st[2].Res.Violated, "NoLostTask")
 		r.Set("selftest_found_wakeup_refuted", ok1)
 		r.Set("selftest_found_resize_refuted", ok2)
-		if !ok1 || !ok2 {
-			r.Inconclusive("self-test: TLC did not refute the protocol as found: " + st[0].Res.Describe() + " / " + st[1].Res.Describe())
+		r.Set("selftest_signal_if_first_refuted", ok3)
+		if !ok1 || !ok2 || !ok3 {
+			r.Inconclusive("self-test: TLC did not refute the protocol as found: " + st[0].Res.Describe() + " / " + st[1].Res.Describe() + " / " + st[2].Res.Describe())
 			return
 		}
 	}
@@ -647,12 +719,26 @@ func C09(r *ev.Run) {
 				pct.IsPoll = func(p string) bool { return poolPollGates[p] }
 				ch = pct
 			}
-			rr := runPoolExplore(sc, ch)
+			scx, mode := sc, "explore"
+			if k%4 >= 2 {
+				// the same scenario on a pool with a client-supplied queue whose Size() is a scheduling point
+				cp := *sc
+				cp.GateQ = true
+				scx, mode = &cp, "explore-gateq"
+				// keep a thread inside such a critical section for as long as others can move (mostly); in every
+				// second run the workers go first, so the client calls arrive while a worker sits in the section
+				hc := &holdChooser{R: rng, Hold: "queue.size", P: 0.9}
+				if k%4 == 2 {
+					hc.First = func(n string) bool { return strings.HasPrefix(n, "w") }
+				}
+				ch = hc
+			}
+			rr := runPoolExplore(scx, ch)
 			if rr.Err != nil {
 				r.Inconclusive("explore " + sc.Name + ": " + rr.Err.Error())
 				return
 			}
-			addRun(sc, "explore", rr)
+			addRun(scx, mode, rr)
 		}
 	}
 	// free runs (no gates): many workers, bursts
@@ -730,6 +816,58 @@ func C09(r *ev.Run) {
 	if len(runs) > 0 {
 		r.Sample(map[string]interface{}{"mode": runs[len(runs)-1].mode, "scenario": runs[len(runs)-1].sc.Name, "property_level_trace": runs[len(runs)-1].res.P})
 	}
+}
+
+// holdChooser keeps a thread which is parked at the gate Hold inside its critical section while others can move:
+// with probability P it picks by rank - threads for which First holds and which are not at Hold, then the other
+// threads which are neither at Hold nor at a polling gate, then the threads at Hold, then the pollers. With
+// First = workers the workers run until they sit in the section or sleep and the next client call arrives then.
+type holdChooser struct {
+	R     *rand.Rand
+	Hold  string
+	P     float64
+	First func(name string) bool
+	seen  map[string]bool // threads whose present passage through Hold is held (decided by a coin on arrival)
+}
+
+func (c *holdChooser) Choose(step int, parked []string, st *sched.Stable) string {
+	if c.R.Float64() >= c.P {
+		return parked[c.R.Intn(len(parked))]
+	}
+	ranks := make([][]string, 4)
+	if c.seen == nil {
+		c.seen = map[string]bool{}
+	}
+	for n := range c.seen {
+		if ts, ok := st.Get(n); !ok || ts.Parked != c.Hold {
+			delete(c.seen, n)
+		}
+	}
+	for _, n := range parked {
+		ts, _ := st.Get(n)
+		if ts.Parked == c.Hold && !c.seen[n] {
+			if (c.First != nil && !c.First(n)) || c.R.Intn(2) == 0 {
+				return n // a passage which is not held
+			}
+			c.seen[n] = true
+		}
+		k := 1
+		switch {
+		case poolPollGates[ts.Parked]:
+			k = 3
+		case ts.Parked == c.Hold:
+			k = 2
+		case c.First != nil && c.First(n):
+			k = 0
+		}
+		ranks[k] = append(ranks[k], n)
+	}
+	for _, r := range ranks {
+		if len(r) > 0 {
+			return r[c.R.Intn(len(r))]
+		}
+	}
+	return parked[0]
 }
 
 type fnTask struct{ f func() }
